@@ -121,8 +121,18 @@ fn c17_string() {
 }
 
 #[kani::proof]
+#[kani::unwind(6)]
+//@ tier=quick class=core cap=900 bounds="every ASCII char" family=char
+fn c17_char_ascii() {
+    let v: char = kani::any();
+    kani::assume((v as u32) < 0x80);
+    let n = agree(&v, &OwnedDataModelType::Char, 2);
+    kani::cover!(n == 2, "reached");
+}
+
+#[kani::proof]
 #[kani::unwind(8)]
-//@ tier=quick class=core cap=900 bounds="every char below U+0800 (1- and 2-byte UTF-8)" family=char
+//@ tier=thorough class=best cap=2400 bounds="every char below U+0800 (1- and 2-byte UTF-8)" family=char
 fn c17_char() {
     let v: char = kani::any();
     kani::assume((v as u32) < 0x800);
